@@ -80,6 +80,17 @@ def _t_js_loose(s):
     return ('result', ['js_loose', s], ('js_loose', (s,), {}))       # no format checker configured: any string conforms
 
 
+def _t_pd_pos(n):
+    if not (isinstance(n, int) and not isinstance(n, bool) and n > 0):
+        return ('invalid', None, None)
+    return ('result', ['pd_pos', n], ('pd_pos', (n,), {}))
+
+
+def _t_under(a=0): return ('result', ['_under', a], ('_under', (a,), {}))
+def _t_dotted(a=0): return ('result', ['_dotted', a], ('ns._dotted', (a,), {}))
+def _t_cowrapped(a, b=0): return ('result', ['cowrapped', a, b], ('cowrapped', (a, b), {}))
+
+
 def _t_byid(id, extra=0): return ('result', ['byid', id, extra], ('byid', (id, extra), {}))
 def _t_wrapped(a, b=0): return ('result', ['wrapped', a, b], ('wrapped', (a, b), {}))
 def _t_vm(a, b=0): return ('result', ['vm', a, b], ('view.vm', (a, b), {}))
@@ -88,7 +99,8 @@ def _t_vm(a, b=0): return ('result', ['vm', a, b], ('view.vm', (a, b), {}))
 TWINS = {
     'ok': _t_ok, 'noargs': _t_noargs, 'echo': _t_echo, 'kwonly': _t_kwonly, 'rpcerr': _t_rpcerr,
     'typed': _t_typed, 'js_checked': _t_js_checked, 'js_loose': _t_js_loose, 'slowfail': _t_slowfail, 'byid': _t_byid, 'wrapped': _t_wrapped, 'whoami': _t_whoami, 'ctxp': _t_ctxp, 'slow': _t_slow, 'fac1': _t_fac1, 'fac2': _t_fac2, 'boom': _t_boom, 'ctxm': _t_ctxm, 'view.vm': _t_vm,
-    'typedctor': _t_typedctor, 'raiselib': _t_raiselib,
+    'typedctor': _t_typedctor, 'raiselib': _t_raiselib, 'pd_pos': _t_pd_pos, '_under': _t_under, 'ns._dotted': _t_dotted,
+    'cowrapped': _t_cowrapped,
 }
 
 
